@@ -173,7 +173,7 @@ fn main() {
     let mut replays = Vec::new();
     for (sig, detail) in &out.violations {
         if seen.insert(sig.clone()) && replays.len() < 10 {
-            let dir = format!("{}/replays/C18", ev::VERIF_DIR);
+            let dir = format!("{}/replays/C18", ev::verif_dir());
             let _ = std::fs::create_dir_all(&dir);
             let p = format!("{dir}/C18-mc-diff-{}.json", replays.len());
             std::fs::write(&p, serde_json::to_string_pretty(&json!({"engine": "seqmc", "bin": "mc-diff", "property": "C18", "tier": cli.tier, "signature": sig, "detail": detail,
@@ -204,7 +204,7 @@ fn main() {
         "wall_s": wall,
         "violations": out.violations.len(),
     });
-    let dir = format!("{}/evidence/parts", ev::VERIF_DIR);
+    let dir = format!("{}/evidence/parts", ev::verif_dir());
     let _ = std::fs::create_dir_all(&dir);
     std::fs::write(format!("{dir}/C18.mc-diff.json"), serde_json::to_string_pretty(&part).unwrap()).unwrap();
     eprintln!("[mc-diff] C18 {}: {} cases over {} (vector, diff) pairs, {} must-panic cases, {} violations, {:.1}s", cli.tier, out.cases, pairs, out.panics_expected, out.violations.len(), wall);
